@@ -286,6 +286,21 @@ def cbcheck_bounded(seed, n_it):
             G[:, 6 * j:6 * j + 6] = np.eye(6)
             K += G.T @ Kd @ G
         bn = [0, nn - 1]                                  # two boundary nodes -> indeterminate interface
+        massless = bool(it % 5 == 4)
+        if massless:
+            # a third, MASSLESS boundary grid tied by a stiff spring to boundary grid 0 only: massless DOF with stiffness in the reduced model
+            xyz = np.vstack((xyz, xyz[0] + rng.randn(3)))
+            N += 6
+            M = np.pad(M, ((0, 6), (0, 6)))
+            K = np.pad(K, ((0, 6), (0, 6)))
+            A_ = rng.randn(6, 6)
+            Kd = (A_ @ A_.T + 6 * np.eye(6)) * 1e3
+            G = np.zeros((6, N))
+            G[:, 0:6] = -Trig(xyz[nn] - xyz[0])
+            G[:, 6 * nn:6 * nn + 6] = np.eye(6)
+            K += G.T @ Kd @ G
+            bn = [0, nn - 1, nn]
+            nn += 1
         b = np.hstack([np.arange(6 * i, 6 * i + 6) for i in bn])
         o = np.array([i for i in range(N) if i not in b])
         Koo, Kob = K[np.ix_(o, o)], K[np.ix_(o, b)]
@@ -307,7 +322,8 @@ def cbcheck_bounded(seed, n_it):
             bseto = np.arange(nq, nq + nb)
         else:
             bseto = np.arange(nb)
-        swapped = bool(it % 4 == 3)
+        swapped = bool(it % 4 == 3) and not massless
+        noreorder = bool(it % 6 == 5) or (massless and it % 2 == 0)          # cbcheck(reorder=False): the b-set stays where it is
         if swapped:
             # the two boundary grids listed in swapped order in `bseto` (the USET table stays in ascending DOF order)
             bseto = np.hstack((bseto[6:], bseto[:6]))
@@ -322,10 +338,10 @@ def cbcheck_bounded(seed, n_it):
         with warnings.catch_warnings():
             warnings.simplefilter("ignore")
             try:
-                out = cb.cbcheck(fobj, Mcb, Kcb, bseto, bref, uset, uref=xyz[bn[refnode]], conv=conv)
+                out = cb.cbcheck(fobj, Mcb, Kcb, bseto, bref, uset, uref=xyz[bn[refnode]], conv=conv, **(dict(reorder=False) if noreorder else {}))
             except Exception as ex:
                 tb = traceback.extract_tb(ex.__traceback__)
-                return ev, dict(what="cbcheck raises on a valid free Craig-Bampton model: %r at %s:%s" % (ex, tb[-1].filename, tb[-1].lineno), b_last=blast, ref_node=refnode, conv=str(conv))
+                return ev, dict(what="cbcheck raises on a valid free Craig-Bampton model: %r at %s:%s" % (ex, tb[-1].filename, tb[-1].lineno), b_last=blast, ref_node=refnode, conv=str(conv), massless_boundary_grid=massless, reorder=not noreorder)
         ev += 1
         lc, mc = (1.0, 1.0) if conv is None else cb._get_conv_factors(conv)
         ref = xyz[bn[refnode]]
@@ -348,7 +364,7 @@ def cbcheck_bounded(seed, n_it):
             mg = out.rbg.T @ out.m[np.ix_(out.bset, out.bset)] @ out.rbg
             if abs(ms - M6c).max() > 1e-6 * abs(M6c).max():
                 prob = "mass / cg / inertia implied by the stiffness-based rigid-body modes are not those of the underlying structure"
-            elif abs(out.k @ out.rbs).max() > 1e-6 * abs(out.k).max():
+            elif abs(out.k @ out.rbs).max() > 1e-6 * abs(out.k).max() or abs(out.k @ out.rbe).max() > 1e-5 * abs(out.k).max():
                 prob = "rigid-body motion produces stiffness force"
             else:
                 q = np.array([i for i in range(out.m.shape[0]) if i not in out.bset])
@@ -369,7 +385,7 @@ def cbcheck_bounded(seed, n_it):
                     if prob is None and not np.allclose(np.sort(out.cb_frq), np.sort(frq_want), rtol=1e-6):
                         prob = "fixed-base frequencies changed (unit conversion / reordering must leave them unchanged)"
         if prob:
-            return ev, dict(what="cbcheck: " + prob, nodes=int(nn), b_last=blast, ref_node=refnode, conv=str(conv), kept_modes=int(nq))
+            return ev, dict(what="cbcheck: " + prob, nodes=int(nn), b_last=blast, ref_node=refnode, conv=str(conv), kept_modes=int(nq), massless_boundary_grid=massless, reorder=not noreorder)
     return ev, None
 
 
